@@ -98,7 +98,12 @@ def showSlot (w : World) (k : Nat) : String :=
   | some i => joinSp ["-", showState i.st, "[]", "-", showAcc i.cfg i.st]
   | none => "bad-op"
 
-def step1 (d : DSt) (toks : List String) : DSt × String :=
+def step1 (d : DSt) (toks0 : List String) : DSt × String :=
+  -- `cfg … loud` / `new k … loud`: console output on (silent=False); the prints change nothing
+  let toks := match toks0 with
+    | ["cfg", m, e, a, l, i, "loud"] => ["cfg", m, e, a, l, i]
+    | ["new", k, m, e, a, l, i, "loud"] => ["new", k, m, e, a, l, i]
+    | t => t
   match toks with
   | ["cfg", m, e, a, l, i] =>
     let cfg := parseCfg m e a l i
